@@ -33,19 +33,34 @@ theorem lexCmp_lt_iff_gt (a b : CStr) : lexCmp a b = .lt ↔ lexCmp b a = .gt :=
         · simp [h1, h2]
         · simp [h1, h2, ih]
 
-theorem nulAt_cons (a : UInt8) (as : CStr) (n : Nat) : nulAt (a :: as) (n + 1) = nulAt as n := by
-  simp [nulAt]
+theorem byteAt_cons (a : UInt8) (as : CStr) (n : Nat) : byteAt (a :: as) (n + 1) = byteAt as n := by
+  simp [byteAt]
+
+/-! What the regenerated expressions of `search_sorted` mean.  These lemmas are re-checked against the
+C source on every run: a changed comparison, midpoint or interval update makes one of them fail. -/
+open Generated.SearchSorted in
+theorem gen_loopCond (l r : Nat) : loopCond l r = true ↔ l < r := by simp [loopCond]
+open Generated.SearchSorted in
+theorem gen_middleOf (l r : Nat) : middleOf l r = (l + r) / 2 := by simp [middleOf]
+open Generated.SearchSorted in
+theorem gen_foundCond (d b : Int) : foundCond d b = true ↔ d = 0 ∧ b = 0 := by simp [foundCond]
+open Generated.SearchSorted in
+theorem gen_goLeftCond (d : Int) : goLeftCond d = true ↔ d ≥ 0 := by simp [goLeftCond]
+open Generated.SearchSorted in
+theorem gen_newRight (m : Nat) : newRight m = m := by simp [newRight]
+open Generated.SearchSorted in
+theorem gen_newLeft (m : Nat) : newLeft m = m + 1 := by simp [newLeft]
 
 /-- The test sequence of the C loop is exactly a three-way byte-lexicographic
 comparison, for NUL-free strings. -/
 theorem cmp_spec (src s : CStr) (hsrc : NoNul src) (hs : NoNul s) :
-    ((strncmp src s == 0 && nulAt src s.length) = true ↔ lexCmp src s = .eq) ∧
+    ((strncmp src s = 0 ∧ byteAt src s.length = 0) ↔ lexCmp src s = .eq) ∧
     (lexCmp src s = .gt → strncmp src s ≥ 0) ∧
     (lexCmp src s = .lt → strncmp src s < 0) := by
   induction src generalizing s with
   | nil =>
     cases s with
-    | nil => simp [strncmp, nulAt, lexCmp]
+    | nil => simp [strncmp, byteAt, lexCmp]
     | cons c cs =>
       have hc : c ≠ 0 := hs c (by simp)
       have : c.toNat ≠ 0 := fun h => hc (UInt8.toNat_inj.mp (by simpa using h))
@@ -55,13 +70,16 @@ theorem cmp_spec (src s : CStr) (hsrc : NoNul src) (hs : NoNul s) :
     have ha : a ≠ 0 := hsrc a (by simp)
     have hsrc' : NoNul as := fun b hb => hsrc b (by simp [hb])
     cases s with
-    | nil => simp [strncmp, nulAt, lexCmp, ha]
+    | nil =>
+      have : a.toNat ≠ 0 := fun h => ha (UInt8.toNat_inj.mp (by simpa using h))
+      simp [strncmp, byteAt, lexCmp]
+      omega
     | cons c cs =>
       have hs' : NoNul cs := fun b hb => hs b (by simp [hb])
       by_cases hac : a = c
       · subst hac
         have := ih cs hsrc' hs'
-        simp [strncmp, lexCmp, ha, nulAt_cons, UInt8.lt_irrefl]
+        simp [strncmp, lexCmp, ha, byteAt_cons, UInt8.lt_irrefl]
         simpa using this
       · have hne : a.toNat ≠ c.toNat := fun h => hac (UInt8.toNat_inj.mp h)
         simp only [strncmp, lexCmp, hac, if_false, List.length_cons]
